@@ -7,6 +7,7 @@ pub mod c04;
 pub mod c12;
 pub mod c16;
 pub mod c18;
+pub mod farm;
 
 pub fn jobs(prop: &str, tier: Tier) -> Option<(&'static str, Vec<Job>)> {
     Some(match prop {
@@ -14,6 +15,12 @@ pub fn jobs(prop: &str, tier: Tier) -> Option<(&'static str, Vec<Job>)> {
         "C02" => ("model_checking", c02::jobs(tier)),
         "C03" => ("model_checking", c03::jobs(tier)),
         "C04" => ("model_checking", c04::jobs(tier)),
+        "C05" => ("model_checking", farm::jobs_c05(tier)),
+        "C06" => ("model_checking", farm::jobs_c06(tier)),
+        "C07" => ("model_checking", farm::jobs_c07(tier)),
+        "C08" => ("model_checking", farm::jobs_c08(tier)),
+        "C10" => ("model_checking", farm::jobs_c10_explore(tier)),
+        "C11" => ("model_checking", farm::jobs_c11(tier)),
         "C12" => ("model_checking", c12::jobs(tier)),
         "C16" => ("model_checking", c16::jobs(tier)),
         "C18" => ("model_checking", c18::jobs(tier)),
